@@ -32,7 +32,8 @@ def _mods():
 
 # =========================================================================== generator ==
 NAMES = ["Alice", "Bob Stone", "Doe, John", "Jörg Müller", "Müller, Hans", "山田 太郎", 'Al "Big" Smith', "O'Neil; Pat", "",
-         "A very long display name number one with many words in it", "Zoë Ünïcode Person With A Long Name Indeed", "x@y (not an address)"]
+         "A very long display name number one with many words in it",
+ "Zoë Ünïcode Person With A Long Name Indeed", "x@y (not an address)"]
 LOCALS = ["alice", "bob.stone", "j.doe", "joerg", "hans+tag", "yamada", "al", "pat", "info", "a-very-long-local-part-indeed"]
 DOMAINS = ["example.org", "x.org", "mail.example.com", "sub.domain.example.net"]
 SUBJECTS = ["Hello", "Hello Wörld", "Re: [list] status", "Ünïcödé all the way ✓", "  padded  ", "",
@@ -53,6 +54,12 @@ DOCS = [("notes.txt", "text", "plain", "attached text\nsecond line\n".encode()),
         ("empty.dat", "application", "octet-stream", b""),
         ("Ünï cödé.txt", "text", "plain", b"named with non-ascii\n"),
         ("image.png", "image", "png", b"\x89PNG\r\n\x1a\n" + b"\x00" * 20),
+        # names that are not safe file names: the attachment's NAME is reported as sent (nothing is written to disk here)
+        ("Q4 2025/forecast v2.csv", "text", "csv", b"q,v\n4,2\n"),
+        ("24\\7 support rota.txt", "text", "plain", b"rota\n"),
+        ("../up.txt", "text", "plain", b"up\n"),
+        (".hidden.md", "text", "markdown", b"# hidden\n"),
+        ("n" * 250 + ".txt", "text", "plain", b"long name\n"),
         # generic labels: the name decides (routing is by name first)
         ("page2.html", "text", "plain", b"<html><body><h1>Quarterly</h1><p>Revenue grew.</p></body></html>"),
         ("table.csv", "text", "plain", b"x,y\n5,6\n"),
@@ -99,7 +106,7 @@ def gen_message(rng, idx=0):
     else:
         t["subject"] = ""
     if rng.random() < 0.85:
-        tz = datetime.timezone(datetime.timedelta(minutes=rng.choice([0, 60, 120, -300, 330, 570])))
+        tz = datetime.timezone(datetime.timedelta(minutes=rng.choice([0, 60, 120, -300, 330, 570, -210, -570, -150, 345, -1])))
         dt = datetime.datetime(2000 + rng.randrange(25), rng.randrange(1, 13), rng.randrange(1, 28), rng.randrange(24), rng.randrange(60), rng.randrange(60), tzinfo=tz)
         m["Date"] = dt
         t["date"] = dt
@@ -200,6 +207,14 @@ def legacy_variants():
     raw = (b"From: a@x.org\nSubject: part one\n part two\n\tpart three\n" + D + b"Message-ID:\n <folded@x.org>\nIn-Reply-To:\n <parent@x.org>\n\nbody\n")
     out.append((raw, dict(base, **{"from": ("", "a@x.org"), "subject": "part one part two\tpart three", "message_id": "<folded@x.org>",
                                    "in_reply_to": "<parent@x.org>", "plain": "body", "shape": "hand-folded"})))
+    long_name = "Mustermann, Erika (Corporate Finance and Controlling Department, Building 7, Frankfurt am Main)"
+    raw = (b'From: "Mustermann, Erika (Corporate Finance and Controlling\n Department, Building 7, Frankfurt am Main)" <e@x.org>\n'
+           b'To: "Mustermann, Erika (Corporate Finance and Controlling Department,\n Building 7, Frankfurt am Main)" <e@x.org>, Bob <b@x.org>\n'
+           b'Cc: "Mustermann, Erika (Corporate Finance and Controlling Department, Building 7,\n\tFrankfurt am Main)" <e2@x.org>\n'
+           b"Subject: folded quoted display names\n" + D + b"\nbody\n")
+    out.append((raw, dict(base, **{"from": (long_name, "e@x.org"), "to": [(long_name, "e@x.org"), ("Bob", "b@x.org")],
+                                   "cc": [(long_name.replace("7, Frankfurt", "7,\tFrankfurt"), "e2@x.org")], "subject": "folded quoted display names",
+                                   "plain": "body", "shape": "folded-quoted-names"})))
     raw = (b"From: =?koi8-r?B?8NLJ18XU?= <p@x.org>\nSubject: =?koi8-r?B?8NLJ18XUIM3J0g==?=\n" + D +
            b"Content-Type: text/plain; charset=koi8-r\nContent-Transfer-Encoding: base64\n\n" + base64.encodebytes("Привет мир\n".encode("koi8-r")))
     out.append((raw, dict(base, **{"from": ("Привет", "p@x.org"), "subject": "Привет мир", "plain": "Привет мир", "shape": "legacy-koi8"})))
@@ -473,7 +488,9 @@ def check_headers():
         if got != ref_dhv(v):
             return {"target": "mbox_email_extractor.py::decode_header_value", "inputs": {"value": v}, "expected": ref_dhv(v), "observed": got}
     lists = [None, "", "a@x.org", "A <a@x.org>, B <b@x.org>", '"Doe, John" <j@x.org>, Name Only, <c@x.org>', "=?utf-8?q?Doe=2C_John?= <j@x.org>",
-             "undisclosed-recipients:;", "A <a@x.org>,\n B <b@x.org>"]
+             "undisclosed-recipients:;", "A <a@x.org>,\n B <b@x.org>",
+             '"Mustermann, Erika (Corporate Finance and Controlling Department,\n Building 7)" <e@x.org>', '"Folded\n\tname" <f@x.org>, plain@x.org',
+             "Plain Name <p@x.org>", "Very Long Unquoted Display Name That Goes On\n And On <u@x.org>"]
     for v in lists:
         want = [(ref_dhv(n), a) for n, a in email.utils.getaddresses([v]) if a] if v else []
         try:
@@ -488,6 +505,130 @@ def check_headers():
             if (r.name, r.address) != ((ref_dhv(n), a) if v else ("", "")):
                 return {"target": "mbox_email_extractor.py::parse_email_address", "inputs": {"addr_string": v}, "expected": (ref_dhv(n), a), "observed": (r.name, r.address)}
     return None
+
+
+def _unfold(v):
+    return re.sub(r"\r?\n(?=[ \t])", "", v)
+
+
+FOLDED_ADDRESS_HEADERS = ['"Mustermann, Erika (Corporate Finance and Controlling Department,\r\n Building 7, Frankfurt am Main)" <e@x.org>, Bob <b@x.org>',
+                          '"Doe, John and a long\r\n\tname" <j@x.org>', '"Doe, John and a long\n name" <j@x.org>']
+
+
+def check_address_unfolding():
+    """parse_email_address(es) on folded header values (as message.get() returns them from LF and CRLF files): the addresses
+    are those of the UNFOLDED value (RFC 5322 2.2.3)."""
+    import email.utils
+    mbox, _ = _mods()
+    for v in FOLDED_ADDRESS_HEADERS:
+        want = [(n, a) for n, a in email.utils.getaddresses([_unfold(v)]) if a]
+        got = [(x.name, x.address) for x in mbox.parse_email_addresses(v)]
+        if got != want:
+            return {"target": "mbox_email_extractor.py::parse_email_addresses", "inputs": {"addr_string": v}, "expected": want, "observed": got}
+        r = mbox.parse_email_address(v)
+        w1 = email.utils.parseaddr(_unfold(v))
+        if (r.name, r.address) != w1:
+            return {"target": "mbox_email_extractor.py::parse_email_address", "inputs": {"addr_string": v}, "expected": w1, "observed": (r.name, r.address)}
+    return None
+
+
+def check_eml_names_unfolded():
+    raw = (b'From: "Mustermann, Erika (Corporate Finance and Controlling\n Department, Building 7, Frankfurt am Main)" <e@x.org>\n'
+           b'To: "Doe, John and a very long display name that is folded inside\n its quotes" <j@x.org>, Bob <b@x.org>\nSubject: s\n' + D0 + b"\nbody\n")
+    r = run_eml(raw)[0]
+    want = {"from": "Mustermann, Erika (Corporate Finance and Controlling Department, Building 7, Frankfurt am Main)",
+            "to": ["Doe, John and a very long display name that is folded inside its quotes", "Bob"]}
+    got = {"from": r.from_email.name, "to": [a.name for a in r.to_emails]}
+    if got != want:
+        return {"target": "eml_email_extractor.py::_read_eml_format", "inputs": {"message": raw.decode()}, "expected": want, "observed": got}
+    return None
+
+
+def check_dates():
+    """Date -> ISO 8601 for the offsets and spellings RFC 5322 allows; the stdlib's own parse + isoformat is the ground truth."""
+    import email
+    from email.utils import parsedate_to_datetime
+    mbox, _ = _mods()
+    dates = ["Mon, 01 Jan 2024 10:00:00 +0000", "Mon, 01 Jan 2024 10:00:00 +0200", "Mon, 01 Jan 2024 10:00:00 -0500", "Mon, 01 Jan 2024 10:00:00 +0530",
+             "Mon, 01 Jan 2024 10:00:00 +0545", "Mon, 01 Jan 2024 10:00:00 -0330", "Mon, 01 Jan 2024 10:00:00 -0930", "Mon, 01 Jan 2024 10:00:00 -0230",
+             "Mon, 01 Jan 2024 10:00:00 -0001", "Mon, 01 Jan 2024 10:00:00 +1400", "Mon, 01 Jan 2024 10:00:00 -1200", "Mon, 01 Jan 2024 10:00:00 -0000",
+             "Mon, 01 Jan 2024 10:00:00 GMT", "Mon, 01 Jan 2024 10:00:00 EST", "1 Jan 2024 10:00 +0100", "Mon, 1 Jan 24 10:00:00 +0100",
+             "Sun, 31 Dec 2023 23:59:59 -0330", "Thu, 29 Feb 2024 00:00:00 +0930", "not a date", ""]
+    for d in dates:
+        raw = b"From: a@x.org\nSubject: s\n" + (b"Date: " + d.encode() + b"\n" if d else b"") + b"\nbody\n"
+        try:
+            want = parsedate_to_datetime(d).isoformat()
+        except (TypeError, ValueError):
+            want = ""
+        try:
+            got = mbox.parse_email_message(email.message_from_bytes(raw)).metadata.date
+        except Exception as e:  # noqa
+            got = f"{type(e).__name__}: {e}"
+        if got != want:
+            return {"target": "mbox_email_extractor.py::parse_email_message", "inputs": {"Date": d}, "expected": want, "observed": got}
+    return None
+
+
+def check_eml_dates():
+    """.eml: the ISO date denotes the instant of the Date header (mailparser normalises to UTC)."""
+    import datetime as _dt
+    from email.utils import parsedate_to_datetime
+    for d in ["Mon, 01 Jan 2024 10:00:00 +0000", "Mon, 01 Jan 2024 10:00:00 +0530", "Mon, 01 Jan 2024 10:00:00 -0330", "Mon, 01 Jan 2024 10:00:00 -0930",
+              "Sun, 31 Dec 2023 23:59:59 -0230", "Mon, 01 Jan 2024 10:00:00 +1400"]:
+        raw = b"From: a@x.org\nSubject: s\nDate: " + d.encode() + b"\n\nbody\n"
+        got = run_eml(raw)[0].metadata.date
+        try:
+            ok = _dt.datetime.fromisoformat(got) == parsedate_to_datetime(d) and _dt.datetime.fromisoformat(got).tzinfo is not None
+        except ValueError:
+            ok = False
+        if not ok:
+            return {"target": "eml_email_extractor.py::_read_eml_format", "inputs": {"Date": d}, "expected": parsedate_to_datetime(d).isoformat() + " (same instant)", "observed": got}
+    return None
+
+
+def _std_type(ext):
+    import mimetypes
+    return mimetypes.guess_type("file." + ext)[0]
+
+
+def check_standard_type(exts):
+    """An attachment named file.<ext>, announced with the standard MIME type of <ext> (what the stdlib generator picks), of a file
+    the router accepts on its own: it must be flagged supported, else iterate_supported_attachments silently skips it."""
+    from email.message import EmailMessage
+    from email import policy
+    from sharepoint2text.parsing.router import get_extractor
+    from sharepoint2text.parsing.mime_types import is_supported_mime_type
+    for ext in exts:
+        mt = _std_type(ext)
+        if not mt:
+            continue
+        name = f"file.{ext}"
+        try:
+            get_extractor(name)
+        except Exception:  # noqa  (not a supported file on its own)
+            continue
+        m = EmailMessage(policy=policy.default.clone(linesep="\n"))
+        m["From"], m["Subject"], m["Date"] = "a@x.org", "s", "Mon, 01 Jan 2024 10:00:00 +0000"
+        m.set_content("body")
+        m.add_attachment(b"# title\n\ntext\n", maintype=mt.split("/")[0], subtype=mt.split("/")[1], filename=name)
+        r = run_eml(m.as_bytes())[0]
+        flags = [(a.filename, a.mime_type, a.is_supported_mime_type) for a in r.attachments]
+        if flags != [(name, mt.lower(), True)] or not is_supported_mime_type(mt):
+            return {"target": "mime_types.py::MIME_TYPE_MAPPING / is_supported_mime_type", "inputs": {"attachment": name, "declared type": mt},
+                    "expected": [(name, mt.lower(), True)], "observed": {"attachments (name, type, is_supported_mime_type)": flags,
+                                                                 "is_supported_mime_type": is_supported_mime_type(mt), "file on its own": "routed by the router"}}
+    return None
+
+
+def check_mime_keys():
+    from sharepoint2text.parsing.mime_types import MIME_TYPE_MAPPING
+    bad = [k for k in MIME_TYPE_MAPPING if not re.fullmatch(r"[A-Za-z0-9][A-Za-z0-9!#$&^_.+-]*/[A-Za-z0-9][A-Za-z0-9!#$&^_.+-]*", k)]
+    if bad:
+        return {"target": "mime_types.py::MIME_TYPE_MAPPING", "inputs": {}, "expected": "every key is a type/subtype name", "observed": bad[:20]}
+    return None
+
+
+RECORDED_MISSING_TYPES = ["7z", "docm", "dotm", "dotx", "otp", "ots", "ott", "potm", "potx", "ppsm", "ppsx", "pptm", "xlsm", "xltm", "xltx"]
 
 
 def check_dispatch():
@@ -820,7 +961,24 @@ def w_folded_ids():
     return got != ("<abc@x.org>", "<parent@x.org>"), {"message": raw.decode()}, ("<abc@x.org>", "<parent@x.org>"), got
 
 
+def _w(fn):
+    def run():
+        r = fn()
+        if r is None:
+            return False, {}, "", ""
+        return True, r.get("inputs"), r.get("expected"), r.get("observed")
+    return run
+
+
+def w_standard_type_of(ob):
+    m_ = re.search(r"standard-type-of-\.([A-Za-z0-9]+)-attachments", ob)
+    return check_standard_type([m_.group(1)]) if m_ else None
+
+
 WITNESSES = [
+    ("header-is-unfolded-before-address-parsing", _w(check_address_unfolding)),
+    ("display-names-are-unfolded", _w(check_eml_names_unfolded)),
+    ("keys-are-type/subtype-names", _w(check_mime_keys)),
     ("parse_email_message/raises", w_no_date),
     ("every-attachment-is-returned", w_mbox_attachments),
     ("get_body_content/", w_disposition),
@@ -830,9 +988,22 @@ WITNESSES = [
     ("parse_email_message/ensures#message_id", w_folded_ids),
     ("parse_email_message/ensures#in_reply_to", w_folded_ids),
 ]
-KNOWN = {"F21-mbox-no-attachments": w_mbox_attachments}
+def w_folded_address_headers():
+    r = check_address_unfolding() or check_eml_names_unfolded()
+    return (r is not None, (r or {}).get("inputs"), (r or {}).get("expected"), (r or {}).get("observed"))
+
+
+def w_missing_standard_types():
+    r = check_standard_type(RECORDED_MISSING_TYPES)
+    return (r is not None, (r or {}).get("inputs"), (r or {}).get("expected"), (r or {}).get("observed"))
+
+
+KNOWN = {"F21-mbox-no-attachments": w_mbox_attachments, "C16-folded-address-headers": w_folded_address_headers,
+         "C16-standard-mime-types-missing": w_missing_standard_types}
+RECORDED_SHAPES = ("folded-quoted-names",)       # legacy variants that only restate a recorded finding
 
 FUNCTION_CHECKS = [
+    ("parse_email_message", check_dates), ("_read_eml_format", check_eml_dates),
     ("MBOX_FROM_PATTERN", check_pattern), ("get_body_content", check_bodies),
     ("_split_mbox_messages", check_split), ("decode_header_value", check_headers), ("parse_email_address", check_headers),
     ("iterate_supported_attachments", check_dispatch), ("_parse_single_recipient", check_single_recipient), ("read_msg_format_mail", check_msg_mapping), ("read_msg_format_mail", check_msg_fixture),
@@ -849,9 +1020,18 @@ def find(req):
             return {"reproduced": False, "note": "unknown finding"}
         bad, inputs, exp, obs = fn()
         return {"reproduced": bool(bad), "target": ob, "inputs": inputs, "expected": exp, "observed": obs}
+    if "standard-type-of-." in ob:
+        r = w_standard_type_of(ob)
+        if r is not None:
+            r["reproduced"] = True
+            return r
+        return {"reproduced": False, "note": "the standard type is flagged supported natively"}
     for key, fn in WITNESSES:
         if key in ob:
-            bad, inputs, exp, obs = fn()
+            try:
+                bad, inputs, exp, obs = fn()
+            except Exception:  # noqa  (the witness does not fit the changed code)
+                continue
             if bad:
                 return {"reproduced": True, "target": ob, "inputs": inputs, "expected": exp, "observed": obs}
     for key, fn in FUNCTION_CHECKS:
@@ -868,7 +1048,8 @@ def find(req):
     for key, prefix in CATEGORY_OF:
         if key in ob:
             for cat, recs in sorted(fails.items()):
-                if cat.startswith(prefix) and not _recorded(cat):
+                recs = [r_ for r_ in recs if r_.get("shape") not in RECORDED_SHAPES]
+                if recs and cat.startswith(prefix) and not _recorded(cat):
                     rec = recs[0]
                     return {"reproduced": True, "target": ob, "inputs": {k: v for k, v in rec.items() if k not in ("expected", "observed")},
                             "expected": rec.get("expected"), "observed": rec.get("observed"), "category": cat}
